@@ -153,6 +153,48 @@ theorem order_independent_prefix_refuted :
   have := h ⟨[], 0⟩ ["a", "b"] ["b", "a"] (List.Perm.swap "b" "a" [])
   revert this; decide
 
+/-! ## Rewriter: opset imports of a replacement -/
+
+/-- **Generated fact, re-read from `rewriter/_rewrite_rule.py` on every run**: `_update_opset_imports`
+iterates `sorted(delta.used_opsets, …)` (commit 630be50).  A bare set iteration makes this theorem fail:
+a regression of C14-N2. -/
+theorem opset_imports_iterated_sorted : OV.Gen.C14Stash.converterFacts.opsetImportsSorted = true := by decide
+
+/-- **Opset imports added by a rewrite do not depend on the hash seed** (the code as it is): the imports
+after a replacement are the same for every iteration order of the set `TapeBuilder.used_opsets`, for every
+set (any number of new domains, with or without versions) and every existing import list. -/
+theorem opset_imports_sorted_perm_invariant (imports : List (String × Nat)) (l₁ l₂ : List UsedOpset)
+    (h : l₁.Perm l₂) :
+    updateOpsetImports true imports l₁ = updateOpsetImports true imports l₂ := by
+  unfold updateOpsetImports
+  simp only [if_true]
+  rw [mergeSort_leOpset_perm_eq h]
+
+example : updateOpsetImports true [("", 18)] [("custom.ext", none), ("com.microsoft", none)]
+    = updateOpsetImports true [("", 18)] [("com.microsoft", none), ("custom.ext", none)] :=
+  opset_imports_sorted_perm_invariant _ _ _ (List.Perm.swap _ _ [])
+
+/-- The function BEFORE commit 630be50 (bare iteration of the set; finding C14-N2, fixed): two or more
+new domains were appended in hash-seed order.  Kept as the documented refutation of the pre-fix code;
+the real witness is a regression pair of every run. -/
+theorem opset_imports_order_prefix_refuted :
+    ¬ ∀ (imports : List (String × Nat)) (l₁ l₂ : List UsedOpset), l₁.Perm l₂ →
+        updateOpsetImports false imports l₁ = updateOpsetImports false imports l₂ := by
+  intro h
+  have := h [("", 18)] [("com.microsoft", none), ("custom.ext", none)]
+    [("custom.ext", none), ("com.microsoft", none)] (List.Perm.swap _ _ [])
+  revert this; decide
+
+/-- … and what held for that pre-fix function: with at most one used opset there is nothing to order. -/
+theorem opset_imports_order_prefix_partial (imports : List (String × Nat)) (l₁ l₂ : List UsedOpset)
+    (h : l₁.Perm l₂) (hlen : l₁.length ≤ 1) :
+    updateOpsetImports false imports l₁ = updateOpsetImports false imports l₂ := by
+  have : l₁ = l₂ := by
+    match l₁, hlen with
+    | [], _ => exact (List.Perm.nil_eq h)
+    | [a], _ => exact List.singleton_perm.1 h
+  rw [this]
+
 /-! ## Globals, protos, eager calls -/
 
 /-- Protos are a function of the globals *at decoration*: whatever the module globals are later
